@@ -293,7 +293,13 @@ def execute(case):
         if manifest and not manifest.endswith("Cargo.toml"):
             invalid, reason = True, "manifest path does not end in Cargo.toml"
         elif md is None:
-            invalid, reason = True, "cargo metadata fails: " + mderr.strip().split("\n")[0][:100]
+            # the reference `cargo metadata` refuses the selection.  That is an answer only for a manifest this case made
+            # unusable on purpose; any other failure (the environment, the tool chain) is the harness's problem, not a
+            # property of cargo-fmt
+            if manifest == "ws/NoSuch/Cargo.toml" or "could not find" in mderr or "does not exist" in mderr or "failed to read" in mderr or "manifest path" in mderr:
+                invalid, reason = True, "cargo metadata fails: " + mderr.strip().split("\n")[-1][:100]
+            else:
+                raise core.HarnessError("reference `cargo metadata` failed for a usable manifest: " + mderr.strip()[-300:])
         elif case["sel_kind"] == "unknown":
             invalid, reason = True, "unknown package"
         else:
